@@ -50,7 +50,7 @@ def run(ctx, model):
             if p in ("source", "is_path"):
                 domains.append([None])
             elif p in ("n_left", "n_right"):
-                domains.append([1, 3])
+                domains.append([0, 1, 3])
             elif p == "repl":
                 domains.append(["<repl>"])
             elif p == "count":
